@@ -156,7 +156,11 @@ pub struct MailboxState {
 #[derive(Clone, Debug, Default)]
 pub struct DeviceStats {
     pub al_control_writes: Vec<u8>,
+    /// Global time (ns) of each AL control write
+    pub al_control_at: Vec<u64>,
     pub al_status_reads: u32,
+    /// First byte of the AL status register as served to each read that covered it
+    pub al_served: Vec<u8>,
     pub sii_reads: u32,
     pub sii_writes: Vec<(u16, [u8; 2])>,
     pub mailbox_requests: Vec<Vec<u8>>,
@@ -186,6 +190,9 @@ pub struct Device {
     pub scripted_replies: std::collections::VecDeque<Vec<u8>>,
     /// Device is unplugged: it neither sees nor answers any datagram
     pub absent: bool,
+    /// Forced AL status bytes: each read of the AL status register is served the next one instead
+    /// of the register content (C10: every combination of reported states)
+    pub al_force: std::collections::VecDeque<u8>,
     pub n_fmmu: usize,
     pub n_sm: usize,
 }
@@ -328,6 +335,7 @@ impl Device {
             segmented: None,
             scripted_replies: Default::default(),
             absent: false,
+            al_force: Default::default(),
             n_fmmu,
             n_sm,
         }
@@ -421,7 +429,9 @@ impl Device {
         }
 
         // Dynamic registers
-        if addr <= R_AL_STATUS && R_AL_STATUS < addr + len {
+        let al_read = addr <= R_AL_STATUS && R_AL_STATUS < addr + len;
+
+        if al_read {
             self.on_al_status_read();
         }
 
@@ -447,7 +457,17 @@ impl Device {
             }
         }
 
-        Some(self.mem[addr..addr + len].to_vec())
+        let mut out = self.mem[addr..addr + len].to_vec();
+
+        if al_read {
+            if let Some(v) = self.al_force.pop_front() {
+                out[R_AL_STATUS - addr] = v;
+            }
+
+            self.stats.al_served.push(out[R_AL_STATUS - addr]);
+        }
+
+        Some(out)
     }
 
     pub fn local_time(&self, now: u64) -> u64 {
@@ -521,6 +541,7 @@ impl Device {
         }
 
         if covers(R_AL_CONTROL, 1) {
+            self.stats.al_control_at.push(now);
             self.on_al_control(self.mem[R_AL_CONTROL]);
         }
 
